@@ -1,5 +1,6 @@
 import LyModel.Text.SpecLemmas
 import LyModel.XmlTree.Roundtrip
+import LyModel.XmlTree.OpaqTag
 import LyModel.Generated.JsonTyping
 import LyModel.JsonTree.Refine
 import LyModel.JsonTree.Faithful
@@ -81,6 +82,154 @@ example : XmlTree.printData
     [.inner [117, 49] [99] [] [.term [117, 49] [97] [] [60, 38, 13], .inner [117, 38, 50] [100] [] [.term [117, 49] [101] [] []]]]
     = [60, 99, 32, 120, 109, 108, 110, 115, 61, 34, 117, 49, 34, 62, 60, 97, 62, 38, 108, 116, 59, 38, 97, 109, 112, 59, 38, 35, 120, 68, 59, 60, 47, 97, 62, 60, 100, 32, 120, 109, 108, 110, 115, 61, 34, 117, 38, 97, 109, 112, 59, 50, 34, 62, 60, 101, 32, 120, 109, 108, 110, 115, 61, 34, 117, 49, 34, 47, 62, 60, 47, 100, 62, 60, 47, 99, 62] := by
   decide
+
+/-! ## Opaque nodes: the namespace declarations of a start tag (`xml_print_ns` v2, `xml_print_attr`, `xml_print_opaq_open`)
+
+The model (`XmlTree/Ns2.lean`, `XmlTree/Opaq.lean`) is parametrised by which of the two repairs of `xml_print_ns` the source has
+(`Fixes`: numbered prefixes for suggestions that are already bound, a170b92; prefixes needed by values kept free, f1b607e — the
+findings F195 / F196); `XmlTree.Fixes.current`, read off the C source by `tools/extractors/xmlns.py`, is what the driver prints
+with and is compared byte for byte with libyang on every generated document.  The theorems are about the variant with both
+repairs, for ANY opaque node (any attributes, any value prefix data) under ANY namespace stack; the `_fails` theorems show that
+neither repair can be dropped. -/
+
+open XmlTree in
+/-- **(a) A start tag binds each prefix at most once.**  In the start tag the model prints for any opaque node under any
+    namespace stack, the namespace declarations have pairwise different prefixes (`xmlns:p` at most once, `xmlns` at most once)
+    — so the duplicate-declaration check of a namespace-aware reader (`XmlDoc.noDupDecls`) passes —, and the stack handed to
+    the content of the element is exactly these declarations, innermost first, on top of the inherited stack.  Hypothesis: the
+    value prefix data of the node and of its attributes are consistent, one uri per prefix (`XmlTree.consistent`, decidable;
+    what a well-formed source element guarantees, since all its values are resolved in one scope). -/
+theorem start_tag_binds_each_prefix_once (fx : Fixes) (hn : fx.numbered = true) (hr : fx.reserved = true) (st : NsStack)
+    (ns : Option Bytes) (value : Bytes) (valPfx : PfxData) (attrs : List OAttr)
+    (hcons : consistent (reservedOf valPfx attrs) = true) :
+    ((declared (startTagItems fx st ns value valPfx attrs).1).map (·.1)).Nodup ∧
+    XmlDoc.noDupDecls (declared (startTagItems fx st ns value valPfx attrs).1) = true ∧
+    (startTagItems fx st ns value valPfx attrs).2 = (declared (startTagItems fx st ns value valPfx attrs).1).reverse ++ st :=
+  have h := startTag_nodup fx hn hr st ns value valPfx attrs hcons
+  ⟨h.1, noDupDecls_of_nodup _ h.1, h.2⟩
+
+open XmlTree in
+/-- without the consistency hypothesis the statement is false: two attributes whose values need `p` for two namespaces (a tree
+    built through the API, not a parsed element) make the printer write `xmlns:p` twice -/
+theorem start_tag_binds_each_prefix_once_fails_without_consistency :
+    ¬ ∀ (st : NsStack) (ns : Option Bytes) (value : Bytes) (valPfx : PfxData) (attrs : List OAttr),
+      ((declared (startTagItems Fixes.all st ns value valPfx attrs).1).map (·.1)).Nodup := by
+  intro h
+  have := h [] none [] [] [⟨none, none, [97], [112, 58, 120], [(some [112], [49])]⟩, ⟨none, none, [98], [112, 58, 121], [(some [112], [50])]⟩]
+  revert this
+  decide
+
+open XmlTree in
+/-- … and it was false of the code before the numbered prefixes (F195): the value of the first attribute needs `p` for one
+    namespace, the name of the second one suggests `p` for another -/
+theorem start_tag_binds_each_prefix_once_fails_without_numbered_prefixes :
+    ¬ ∀ (fx : Fixes) (st : NsStack) (ns : Option Bytes) (value : Bytes) (valPfx : PfxData) (attrs : List OAttr),
+      fx.reserved = true → consistent (reservedOf valPfx attrs) = true →
+      ((declared (startTagItems fx st ns value valPfx attrs).1).map (·.1)).Nodup := by
+  intro h
+  have := h ⟨false, true⟩ [] none [] []
+    [⟨none, none, [97], [112, 58, 120], [(some [112], [50])]⟩, ⟨some [112], some [49], [98], [118], []⟩] rfl (by decide)
+  revert this
+  decide
+
+open XmlTree in
+/-- **(b) The prefixes of a start tag mean what the tree says.**  For any opaque node under any namespace stack: what is written
+    for the attributes is their names and values in order, a prefix is written exactly in front of an attribute that has a
+    prefix and a module_ns, and that prefix resolves — by the innermost-binding rule of Namespaces in XML (`XmlDoc.lookup`, the
+    resolution function of the independent reader) applied to the stack AS IT IS AT THE END OF THE START TAG, i.e. with every
+    declaration of the tag in force — to the attribute's module_ns (`XmlTree.AttrsResolve`); no hypothesis on the values is
+    needed for this part.  If the values are consistent, every (prefix, uri) of the value prefix data of every attribute — and
+    of the node itself when its value is printed — resolves to its uri in that stack, so QName-like values keep their meaning. -/
+theorem attr_prefix_resolves (fx : Fixes) (hn : fx.numbered = true) (hr : fx.reserved = true) (st : NsStack)
+    (ns : Option Bytes) (value : Bytes) (valPfx : PfxData) (attrs : List OAttr) :
+    AttrsResolve (startTagItems fx st ns value valPfx attrs).2 attrs (attrsOf (startTagItems fx st ns value valPfx attrs).1) ∧
+    (consistent (reservedOf valPfx attrs) = true →
+      (∀ a ∈ attrs, ∀ e ∈ pairsOf a.valPfx,
+        XmlDoc.lookup (startTagItems fx st ns value valPfx attrs).2 (some e.1) = some e.2) ∧
+      (value.isEmpty = false → ∀ e ∈ pairsOf valPfx,
+        XmlDoc.lookup (startTagItems fx st ns value valPfx attrs).2 (some e.1) = some e.2)) :=
+  ⟨startTag_attrs_resolve fx hn hr st ns value valPfx attrs, startTag_values_resolve fx hn hr st ns value valPfx attrs⟩
+
+open XmlTree in
+/-- F196: without `xml_prefix_is_reserved` the statement is false.  An ancestor binds `q` to `u1`; the attribute `p:a` of
+    namespace `u1` reuses `q`; its value needs `q` for `u2`, which is then declared in the same start tag:
+    `<e q:a="q:x" xmlns:q="u2"/>` — the attribute name is read in `u2`. -/
+theorem attr_prefix_resolves_fails_without_reserved_check :
+    ¬ ∀ (fx : Fixes) (st : NsStack) (ns : Option Bytes) (value : Bytes) (valPfx : PfxData) (attrs : List OAttr),
+      fx.numbered = true →
+      AttrsResolve (startTagItems fx st ns value valPfx attrs).2 attrs (attrsOf (startTagItems fx st ns value valPfx attrs).1) := by
+  intro h
+  have := h ⟨true, false⟩ [(some [113], [117, 49])] none [] []
+    [⟨some [112], some [117, 49], [97], [113, 58, 120], [(some [113], [117, 50])]⟩] rfl
+  have e : startTagItems ⟨true, false⟩ [(some [113], [117, 49])] none [] []
+      [⟨some [112], some [117, 49], [97], [113, 58, 120], [(some [113], [117, 50])]⟩] =
+      ([.decl (some [113]) [117, 50], .attr (some [113]) [97] [113, 58, 120]],
+       [(some [113], [117, 50]), (some [113], [117, 49])]) := by decide
+  rw [e] at this
+  simp [attrsOf, AttrsResolve, XmlDoc.lookup] at this
+
+open XmlTree in
+/-- F195: without the numbered prefixes the statement is false.  An ancestor binds `p` to `u2`; the first attribute (of
+    namespace `u2`) reuses `p`; the second one suggests `p` for `u1`, which is declared in the same start tag:
+    `<e p:a="v" xmlns:p="u1" p:b="w"/>` — the first attribute is read in `u1`. -/
+theorem attr_prefix_resolves_fails_without_numbered_prefixes :
+    ¬ ∀ (fx : Fixes) (st : NsStack) (ns : Option Bytes) (value : Bytes) (valPfx : PfxData) (attrs : List OAttr),
+      fx.reserved = true →
+      AttrsResolve (startTagItems fx st ns value valPfx attrs).2 attrs (attrsOf (startTagItems fx st ns value valPfx attrs).1) := by
+  intro h
+  have := h ⟨false, true⟩ [(some [112], [117, 50])] none [] []
+    [⟨some [120], some [117, 50], [97], [118], []⟩, ⟨some [112], some [117, 49], [98], [119], []⟩] rfl
+  have e : startTagItems ⟨false, true⟩ [(some [112], [117, 50])] none [] []
+      [⟨some [120], some [117, 50], [97], [118], []⟩, ⟨some [112], some [117, 49], [98], [119], []⟩] =
+      ([.attr (some [112]) [97] [118], .decl (some [112]) [117, 49], .attr (some [112]) [98] [119]],
+       [(some [112], [117, 49]), (some [112], [117, 50])]) := by decide
+  rw [e] at this
+  simp [attrsOf, AttrsResolve, XmlDoc.lookup] at this
+
+/-- non-vacuity: a three-level forest — `config` binds `n` to namespace `1` and uses it for an attribute whose value is a QName
+    (`n:operation="n:m"`), `server` re-binds `n` to namespace `2` (`n:tag="n:b"`), `port` has an attribute of namespace `1` under
+    another prefix (`x:operation="d"`, the attribute of the seeded defect C12r3), an attribute in no namespace and a QName value
+    (`x:t`); `o` is the namespace of the elements -/
+def exOpaq : List XmlTree.ONode :=
+  [.mk [99] none (some [111]) [] [(none, [111])]
+    [⟨some [110], some [49], [111, 112], [110, 58, 109], [(none, [111]), (some [110], [49])]⟩]
+    [.mk [115] none (some [111]) [] [(none, [111])]
+      [⟨some [110], some [50], [116], [110, 58, 98], [(none, [111]), (some [110], [50])]⟩]
+      [.mk [112] none (some [111]) [120, 58, 116] [(none, [111]), (some [120], [49])]
+        [⟨some [120], some [49], [111, 112], [100], [(none, [111])]⟩, ⟨none, none, [97], [49], [(none, [111])]⟩] []]]]
+
+/-- what the model prints for it (and libyang, byte for byte, for the same tree with longer names — `OPAQ_HAND[0]` in
+    `tools/checks/rtxcomp.py`): `<c xmlns="o" xmlns:n="1" n:op="n:m"><s xmlns:n1="2" xmlns:n="2" n1:t="n:b"><p xmlns:x="1"
+    x:op="d" a="1">x:t</p></s></c>` — the suggestion `n` of `server` is bound further out (numbered prefix `n1`), and `port` may
+    not reuse `n` for namespace `1` because `server` re-bound it (the shadow check) -/
+example : XmlTree.printOpaqData XmlTree.Fixes.all exOpaq = bytesOfString
+    "<c xmlns=\"o\" xmlns:n=\"1\" n:op=\"n:m\"><s xmlns:n1=\"2\" xmlns:n=\"2\" n1:t=\"n:b\"><p xmlns:x=\"1\" x:op=\"d\" a=\"1\">x:t</p></s></c>" := by
+  decide +kernel
+
+/-- the stack under which the start tag of `port` is printed -/
+def exPortStack : XmlTree.NsStack := [(some [110], [50]), (some [110, 49], [50]), (some [110], [49]), (none, [111])]
+
+/-- the hypotheses hold of each of the three start tags … -/
+example : XmlTree.consistent (XmlTree.reservedOf [(none, [111])] [⟨some [110], some [49], [111, 112], [110, 58, 109], [(none, [111]), (some [110], [49])]⟩]) = true ∧
+    XmlTree.consistent (XmlTree.reservedOf [(none, [111])] [⟨some [110], some [50], [116], [110, 58, 98], [(none, [111]), (some [110], [50])]⟩]) = true ∧
+    XmlTree.consistent (XmlTree.reservedOf [(none, [111]), (some [120], [49])]
+      [⟨some [120], some [49], [111, 112], [100], [(none, [111])]⟩, ⟨none, none, [97], [49], [(none, [111])]⟩]) = true := by decide
+
+/-- the start tag of `server`, printed under the stack `config` leaves -/
+def exServerAttrs : List XmlTree.OAttr := [⟨some [110], some [50], [116], [110, 58, 98], [(none, [111]), (some [110], [50])]⟩]
+
+/-- … and the theorems instantiated at the start tag of `server` (prefix `n` re-bound: one declaration of `n1` for the attribute
+    name, one of `n` for the value): what is written, the stack it leaves for `port`, and the three conclusions -/
+example :
+    let tag := XmlTree.startTagItems XmlTree.Fixes.all [(some [110], [49]), (none, [111])] (some [111]) [] [(none, [111])] exServerAttrs
+    tag = ([.decl (some [110, 49]) [50], .decl (some [110]) [50], .attr (some [110, 49]) [116] [110, 58, 98]], exPortStack) ∧
+    ((XmlTree.declared tag.1).map (·.1)).Nodup ∧
+    XmlTree.AttrsResolve tag.2 exServerAttrs (XmlTree.attrsOf tag.1) ∧
+    (∀ a ∈ exServerAttrs, ∀ e ∈ XmlTree.pairsOf a.valPfx, XmlDoc.lookup tag.2 (some e.1) = some e.2) :=
+  ⟨by decide,
+   (start_tag_binds_each_prefix_once XmlTree.Fixes.all rfl rfl _ _ _ _ _ (by decide)).1,
+   (attr_prefix_resolves XmlTree.Fixes.all rfl rfl _ _ _ _ _).1,
+   ((attr_prefix_resolves XmlTree.Fixes.all rfl rfl _ _ _ _ _).2 (by decide)).1⟩
 
 /-- RFC 7951 sec. 6 as a table: how an instance of each YANG base type is written in JSON -/
 def rfc7951Kind : String → String
